@@ -41,6 +41,8 @@ CONSTANTS
     LossyWrites,
     ClearAfterRequeue,
     KeepOldWaiter,
+    CancelOnPublish,  \* TRUE: a received QoS 2 PUBLISH aborts the PUBREL wait of an earlier attempt with that identifier
+                      \* (the code since fix F17); FALSE: the old wait lives until the new operation starts to wait
     SilentLoss    \* TRUE: a write may be reported successful although its bytes never reach the broker, the connection
                   \* being lost right afterwards (send buffer); TLC then finds the recorded finding F16
 
@@ -101,7 +103,8 @@ ClientReads ==
        /\ IF k.t = "PUBLISH" THEN
               \* publish_rec_op::perform: a fresh operation per received PUBLISH
               /\ Send([t |-> IF QosOf[k.m] = 1 THEN "PUBACK" ELSE "PUBREC", m |-> k.m, p |-> k.p])
-              /\ UNCHANGED <<waiters, stored, relUnanswered, foreign>>
+              /\ waiters' = IF CancelOnPublish /\ QosOf[k.m] = 2 THEN {w \in waiters : w.p # k.p} ELSE waiters
+              /\ UNCHANGED <<stored, relUnanswered, foreign>>
           ELSE \* PUBREL: replies::dispatch
               /\ relUnanswered' = relUnanswered \cup {k.p}
               /\ IF \E w \in waiters : w.p = k.p
